@@ -301,7 +301,10 @@ class Ctx:
         ks = getattr(self.mod, "KNOWN_SUITE", {}).get(suite)
         if not ks:
             return 0
-        r = run_checker(ks, [case], [observed])[0]
+        if getattr(self.mod, "KNOWN_ARGS", "case") == "pair":
+            r = run_checker(ks, [case], [observed])[0]
+        else:
+            r = run_model(["%s %s" % (ks, case)])[0]
         try:
             return int(r)
         except ValueError:
@@ -512,10 +515,14 @@ def prove(ctx):
     bad = forbidden_scan()
     if bad:
         die("forbidden construct in the Coq development: " + "; ".join(bad[:5]))
-    thms, exs = theorems_of(ctx.mod.PROPS_VO)
-    if not thms:
-        die("no theorem in " + ctx.mod.PROPS_VO)
-    ax = assumptions(ctx.mod.PROPS_VO, thms, ctx.workdir)
+    files = ctx.mod.PROPS_VO if isinstance(ctx.mod.PROPS_VO, (list, tuple)) else [ctx.mod.PROPS_VO]
+    thms, exs, ax = [], [], {}
+    for f in files:
+        t, e = theorems_of(f)
+        if not t:
+            die("no theorem in " + f)
+        ax.update(assumptions(f, t, os.path.join(ctx.workdir, f.replace("/", "_"))))
+        thms += t; exs += e
     allow = set(getattr(ctx.mod, "AXIOMS_OK", []))
     discharged = 0
     for t in thms:
@@ -526,8 +533,8 @@ def prove(ctx):
     allax = sorted(set(a for t in thms for a in ax[t]))
     return {
         "obligations": len(thms), "discharged": discharged, "theorems": thms, "examples": exs, "axioms": allax,
-        "checker_cmd": "bin/build-model (coq_makefile + make, full .vo) ; coqc Print Assumptions over %s" % ctx.mod.PROPS_VO,
-        "trusted_base": TRUSTED_COMMON + ["axioms (Print Assumptions over all theorems of %s): %s" % (ctx.mod.PROPS_VO, ", ".join(allax) if allax else "none — closed under the global context")] + list(getattr(ctx.mod, "TRUSTED_EXTRA", [])),
+        "checker_cmd": "bin/build-model (coq_makefile + make, full .vo) ; coqc Print Assumptions over %s" % ", ".join(files),
+        "trusted_base": TRUSTED_COMMON + ["axioms (Print Assumptions over all theorems of %s): %s" % (", ".join(files), ", ".join(allax) if allax else "none — closed under the global context")] + list(getattr(ctx.mod, "TRUSTED_EXTRA", [])),
         "assumptions": list(getattr(ctx.mod, "ASSUMPTIONS", [])),
     }
 
